@@ -127,6 +127,8 @@ static void RunCombinator(uint32 kind)
       case K_NOR:  f = &fnor;  expected = (cnt == 0); break;
       default:     f = &fxor;  expected = ((cnt&1) != 0); break;
    }
+   // without children the documentation of each class fixes the verdict: And/Or (minimum-threshold) "will always return true", Nand/Nor (maximum-threshold) and Xor "will always return false"
+   if (numKids == 0) expected = ((kind == K_MIN)||(kind == K_AND)||(kind == K_OR));
    for (uint32 i=0;i<numKids;i++) CHECK(f->GetChildren().AddTail(DummyConstQueryFilterRef(w[i])).IsOK(), "AddTail");
    DummyConstMessageRef r(g_msg);
    const bool got = f->Matches(r, NULL);
